@@ -658,6 +658,11 @@ func mutate(r *rand.Rand, root *jv) string {
 		return "replace-value"
 	case 5: // duplicate key, later one wins (never null: for int/bool/struct fields jsoniter treats a
 		// later null as "keep the earlier value", which is outside the model's last-wins lookup)
+		// and never for the struct-typed field: a second object is merged into the first by jsoniter)
+		if key == "timeRange" {
+			o.obj = append(o.obj, jkv{"zz_extra", randReplacement(r, "zz_extra")})
+			return "extra-key"
+		}
 		v := randReplacement(r, key)
 		for v.kind == jNull {
 			v = randReplacement(r, key)
